@@ -10,11 +10,11 @@ for line in open(os.path.join(HERE, "seeded", "RESULTS.md")):
             rows[c[0]] = c
 out = []
 out.append("### 10.5 Seeded defects: which checks catch which changes\n")
-out.append("Nine rounds of fresh sub-agents (round 1: 2 changes for each of the 18 properties; round 2: 3 \"harder\" "
+out.append("Ten rounds of fresh sub-agents (round 1: 2 changes for each of the 18 properties; round 2: 3 \"harder\" "
            "changes for 15 properties; rounds 3 and 4: two-site changes; round 5: 3 changes each for the contract-style "
            "properties, told to avoid the obvious site; round 6: 3 changes each for the scheduler properties, told which "
            "mechanisms earlier rounds had already used; round 7: the contract-style and fault properties again, with the list "
-           "of mechanisms to avoid; round 8: the same plus C16 and C17, with longer lists; round 9: the scheduler properties once more) got only the text of one property and a scratch "
+           "of mechanisms to avoid; round 8: the same plus C16 and C17, with longer lists; round 9: the scheduler properties once more; round 10: all 18 properties, 3 changes each, every agent told the mechanisms used before for its property) got only the text of one property and a scratch "
            "worktree; every kept change was re-verified here (patch applies to the current /repo HEAD, the 233 tests pass "
            "with it, the demonstration fails with it and passes without it) and lives in `seeded/<id>/` (`patch.diff`, "
            "`demo.py`, `notes.md`, `meta.json`). `seeded/own-*` is the own catalogue of section 7. `tools/run_mutant.sh` "
@@ -45,7 +45,7 @@ out.append("Checks that were *strengthened because they missed a change* (each m
            "`setup_done` that takes time), C14 (`CancelledError` as exception class; an in-process source that never answers an "
            "agent's asynchronous request), C18 (attribute-less calls; the caller's destination list judged after the call); round 9: C10 (real-time mode must not "
            "switch lazy stepping off: every fifth run of C10 and every seventh of C01-C03 now runs in real-time mode on the "
-           "virtual clock). A change whose only observable effect is the internal assertion 'cannot progress backwards' is "
+           "virtual clock). round 10: see 10.4b (C11 C16 C15 C18 C14 C06 and the generator). A change whose only observable effect is the internal assertion 'cannot progress backwards' is "
            "caught by C05 (listed under 'also' in its meta.json), whatever property its author aimed at.\n")
 out.append("| seeded defect | origin | checks run -> verdict | what it is |")
 out.append("|---|---|---|---|")
